@@ -6,7 +6,7 @@ PROOF_NOTE = ('Trusted: Coq 8.16.1 kernel (vm_compute, no native_compute), no ax
               'the hand-written Gallina model is tied to /repo by T-corr (extracted OCaml model vs the real code on generated cases, sampled) '
               'and where stated by T-src (tools/srcfacts.py over clang JSON AST, regenerated each run); extraction uses ExtrOcamlBasic only.')
 import importlib, sys
-sys.path.insert(0, os.path.join(V, 'lib')); sys.path.insert(0, V)
+sys.path.insert(0, os.path.join(V, 'lib')); sys.path.insert(0, V); sys.path.insert(0, os.path.join(V, 'props'))
 CLAIMED = {}
 for f in sorted(os.listdir(os.path.join(V, 'props'))):
     if f.startswith('c') and f.endswith('.py'):
